@@ -57,7 +57,7 @@ def select(behs, cap, seed, coarse):
         k = _key(b, coarse)
         if k not in best or len(b["steps"]) < len(best[k]["steps"]):
             best[k] = b
-    prio, rest = [], []
+    top, prio, rest = [], [], []
     for k in sorted(best):
         b = best[k]
         kk = b["key"]
@@ -66,12 +66,18 @@ def select(behs, cap, seed, coarse):
         carried = (not pv.get("none", True)) and (pv.get("authed") or pv.get("enc") or pv.get("session") or pv.get("sm"))
         hot = (kk["tls"] == "Required" and not kk["enc"]) or last in ("Cut", "Disconnect", "SeeOtherHost") or kk["sig"] \
             or (carried and b["steps"][-1]["k"] in ("Features", "Hdr", "Connect", "Success", "Success2", "BindResult", "Enabled", "Resumed", "SmFailed"))
-        (prio if hot else rest).append(b)
+        # first of all: the previous connection ended while a negotiation manager was waiting for
+        # an answer, and the server now sends something on the new, not yet authenticated stream
+        stale = (not pv.get("none", True)) and not pv.get("authed") and pv.get("lst", "Core") != "Core" \
+            and not kk["authed"] and last not in ("Connect", "Cut", "Disconnect")
+        (top if stale else prio if hot else rest).append(b)
     rnd = random.Random(seed)
+    rnd.shuffle(top)
     rnd.shuffle(prio)
     rnd.shuffle(rest)
-    chosen = (prio + rest)[:cap] if cap else prio + rest
-    return chosen, {"distinct_keys": len(best), "priority_keys": len(prio), "replayed": len(chosen)}
+    top = top[:cap // 2] if cap else top
+    chosen = (top + prio + rest)[:cap] if cap else top + prio + rest
+    return chosen, {"distinct_keys": len(best), "stale_manager_keys": len(top), "priority_keys": len(prio), "replayed": len(chosen)}
 
 
 def sig_of(b, upto=None):
@@ -116,9 +122,26 @@ def generate(chk):
         behs, gen = cached["behs"], cached["gen"]
         gen["from_cache"] = True
     else:
+        # one line per transition of the tour (gigabytes): the text before "steps" is (cfg, key incl.
+        # the last step); breadth-first order makes the first line per prefix a shortest behaviour
+        seen = set()
+        marker = '\\"steps\\":'
+        stat = {"lines": 0}
+
+        def first_per_prefix(line):
+            stat["lines"] += 1
+            i = line.find(marker)
+            if i < 0:
+                return True
+            hsh = hash(line[:i])
+            if hsh in seen:
+                return False
+            seen.add(hsh)
+            return True
         tour, st = vf.tlc_gen("ClientStreamGen.tla", "ClientStreamGenTour.cfg" if quick else "ClientStreamGenTourFull.cfg",
-                              keep_prefixes=True, steps_key=None, heap="8g", timeout=3600)
-        chosen, sel = select(tour, 4000 if quick else 60000, chk.seed, coarse=quick)
+                              keep_prefixes=True, steps_key=None, heap="8g", timeout=3600, line_filter=first_per_prefix)
+        st["transitions_emitted"] = stat["lines"]
+        chosen, sel = select(tour, 5000 if quick else 60000, chk.seed, coarse=quick)
         behs = []
         for b in chosen:
             behs.append({"cfg": b["cfg"], "steps": b["steps"] + epilogue(b["cfg"], b["key"]["endSock"])})
